@@ -46,6 +46,7 @@ Put1(o, s, b) ==
   ELSE <<{"ok"}, Append(s, b)>>
 
 Frozen(s) == [res |-> {"err"}, next |-> s]
+NoIndexPossible(o) == o.codec = "none" /\ ~o.v1
 
 Ops ==
        {[op |-> "put", b |-> b] : b \in PutIds}
@@ -83,7 +84,11 @@ Outcomes(s, op) ==
            ELSE {Frozen(s)}
     [] op.op = "finalize" ->
          IF s.phase = "open"
-           THEN {[res |-> {"ok"}, next |-> [s EXCEPT !.phase = "closed", !.fin = ~o.v1]]}
+           \* an option set under which no index can be flattened (codec "none", CARv2): Finalize fails and
+           \* writes nothing -- and the store is closed all the same ("after Finalize every lookup returns an error")
+           THEN IF NoIndexPossible(o)
+                  THEN {[res |-> {"err"}, next |-> [s EXCEPT !.phase = "closed"]]}
+                  ELSE {[res |-> {"ok"}, next |-> [s EXCEPT !.phase = "closed", !.fin = ~o.v1]]}
          ELSE IF s.phase = "ro"
            \* "After Finalize ... every lookup returns an error": whatever the call reports (the header and
            \* index are already written), the store is closed afterwards
@@ -91,7 +96,9 @@ Outcomes(s, op) ==
          ELSE {[res |-> {"ok", "err"}, next |-> s]}
     [] op.op = "finalize_ro" ->
          IF s.phase = "open"
-           THEN {[res |-> {"ok"}, next |-> [s EXCEPT !.phase = "ro", !.fin = ~o.v1]]}
+           THEN IF NoIndexPossible(o)
+                  THEN {[res |-> {"err"}, next |-> [s EXCEPT !.phase = "ro"]]}      \* no more writes; reads go on
+                  ELSE {[res |-> {"ok"}, next |-> [s EXCEPT !.phase = "ro", !.fin = ~o.v1]]}
            ELSE {[res |-> {"ok", "err"}, next |-> s]}
     [] op.op = "close" ->
          IF s.phase = "open"
